@@ -24,6 +24,13 @@ B64 = B32 + [0x100000000, 0x100000001, 0x7fffffffffffffff, 0x8000000000000000, 0
              0x00000000ffffffff, 0xdeadbeef00000005, 0xdeadbeefffffff80, 0xdeadbeef00000100]
 
 
+def read_corpus(name):
+    p = os.path.join(VERIF, "corpus", name)
+    if not os.path.exists(p):
+        return []
+    return [l.split() for l in open(p) if l.strip() and not l.startswith("#")]
+
+
 def fp(text):
     return hashlib.sha1(text.encode()).hexdigest()[:8]
 
@@ -123,6 +130,14 @@ def sweep_scalars(c, rep, model):
             for d in ((0, 1) if s["backend"] == "rust" else (0,)):
                 reqs.append(f"s {lname} {idx} {x:x} {d}")
                 meta.append((s, x, d))
+    # corpus first in spirit: witnesses of repaired defects must keep passing (corpus/C14.txt: `<list> <hex input> <dbg>`)
+    corpus = read_corpus("C14.txt")
+    ncorp = 0
+    for (lname, idx), s in sorted(by_list.items()):
+        for row in corpus:
+            if row[0] == lname and len(row) >= 3:
+                reqs.append(f"s {lname} {idx} {row[1]} {row[2]}"); meta.append((s, int(row[1], 16), int(row[2]))); ncorp += 1
+    c.cov["corpus_cases"] = ncorp
     out = run_lines([model], reqs, timeout=1200)
     fails = {}
     for (s, x, d), o in zip(meta, out):
@@ -158,6 +173,9 @@ def sweep_casts(c, rep, model):
         for x in B64 + [c.rng.getrandbits(64) for _ in range(n)] + [c.rng.getrandbits(32) for _ in range(n // 2)]:
             reqs.append(f"c {lname} {idx} {x:x} {c.rng.getrandbits(64):x}")
             meta.append((s, x))
+        for row in read_corpus("C04_backends.txt"):       # `<list> <hex input>`: witnesses of repaired defects
+            if row[0] == lname and len(row) >= 2:
+                reqs.append(f"c {lname} {idx} {row[1]} 0"); meta.append((s, int(row[1], 16)))
     out = run_lines([model], reqs, timeout=1200)
     fails = {}
     for (s, x), o in zip(meta, out):
